@@ -44,8 +44,7 @@ def tid(t):
 BACKEND_ASSUME = '  __CPROVER_assume(V_BACKEND_WF);\n'
 
 
-def cs(cxx_type):
+def cs(cxx_type, prefix='S_'):
     """C struct tag the emitter gives to a C++ record type spelling"""
-    from vlib.emit import san
-    from vlib.astload import norm_name
-    return 'S_' + san(norm_name(cxx_type))
+    from vlib.emit import struct_tag
+    return struct_tag(cxx_type, prefix)
